@@ -1000,3 +1000,61 @@ def _obligations(body, ia=None):
                                 'discharged': dead, 'where': body.loc(bb), 'detail': fn, 'exp': bool(t.get('exp'))})
                     break
     return out
+
+
+def _split_top(s):
+    out, depth, cur = [], 0, ''
+    for ch in s:
+        if ch in '([{':
+            depth += 1
+        elif ch in ')]}':
+            depth -= 1
+        if ch == ',' and depth == 0:
+            out.append(cur)
+            cur = ''
+        else:
+            cur += ch
+    out.append(cur)
+    return out
+
+
+def sum_terms(ops):
+    """multiset (sorted list) of the summands of a canonical `a,b` overflow-add operand pair, nested additions flattened"""
+    terms = []
+    work = _split_top(ops)
+    while work:
+        t = work.pop()
+        m = re.fullmatch(r'Add(?:Unchecked)?\((.*)\)(?:\.0)?', t)
+        if m and len(_split_top(m.group(1))) == 2:
+            work.extend(_split_top(m.group(1)))
+        else:
+            terms.append(t)
+    return sorted(terms)
+
+
+def implied_partial_sum(key, audit, unsigned=True):
+    """an unsigned overflow-add obligation whose summands are a sub-multiset of the summands of an audited overflow-add
+    obligation of the same function cannot overflow either (every partial sum of non-negative terms is <= the full sum):
+    returns the audited key it follows from, else None"""
+    if not unsigned:
+        return None
+    parts = key.split('|')
+    if len(parts) < 3 or not parts[1].startswith('overflow-add'):
+        return None
+    mine = sum_terms(parts[2])
+    for k in audit:
+        p2 = k.split('|')
+        if len(p2) < 3 or p2[0] != parts[0] or p2[1] != parts[1] or k == key:
+            continue
+        theirs = sum_terms(p2[2])
+        rest = list(theirs)
+        ok = True
+        for t in mine:
+            if t in rest:
+                rest.remove(t)
+            else:
+                ok = False
+                break
+        if ok and len(theirs) >= len(mine):
+            return k
+    return None
